@@ -4,6 +4,9 @@
 # being edited and rebuilt. Timings only - evidence for /verif is written by bin/check, not by this.
 IDS="$@"; [ -z "$IDS" ] && IDS="C07 C10 C19 C15 C02 C08 C11 C17 C09 C18 C16 C14 C12 C20 C13 C04 C05 C06 C01 C03"
 ROOT=/tmp/thorough-root; mkdir -p $ROOT/evidence; cp /verif/known_findings.json $ROOT/
+# rebuild first: the binary in target/ may stem from a seeded (patched) /repo tree that has been restored since
+if [ -n "$(git -C /repo status --porcelain -- src)" ]; then echo "/repo/src is not clean"; exit 2; fi
+(cd /verif/mc && CARGO_NET_OFFLINE=true cargo build --release --offline -q) || exit 2
 cp /verif/mc/target/release/mc $ROOT/mc || exit 2
 for id in $IDS; do
   s=$(date +%s.%N)
